@@ -294,6 +294,11 @@ class Seq(Base):
         if fk:
             self.run.probe('open-succeeded-despite-fault')
             self.cx.fs.disarm()
+            after = self.cx.host(name) or b''
+            if mode != 'O' and (after[:-1] if after.endswith(b'\x1a') else after) != self.content(f['recs']):
+                del self.h[n]
+                return self.bad('open-damaged-file:%s:%s-fault' % (mode, fk), '%r reported success; host file was %r, '
+                                'is now %r' % (stmt, before and before[-60:], after[-60:]))
 
     def op_close(self, op):
         n = op['n']
@@ -537,6 +542,8 @@ class Seq(Base):
                 unset = True
                 continue
             if not same:
+                if any(g['t'] == 's' and len(g['v']) == 255 for g in got[:j]):
+                    h['after255'] = True
                 return self.bad('input#-mismatch' + self.suffix(h), '%r: item %d read back as %r, written as %r '
                                 '(record %r)' % (stmt, j, v if it['t'] == 'n' else v[:60], it['v'][:60],
                                                  recs[h['ri']]['raw'][:80]))
@@ -675,7 +682,7 @@ class Rand(Base):
     def suffix(self, name):
         """One history marker (the most specific cause candidate) for the signature."""
         fl = self.flags.get(name, ())
-        for k in sorted(fl):
+        for k in reversed(fl):
             if k.startswith('after-'):
                 return ':' + k
         for k in ('two-numbers-on-file', 'put-beyond-eof(recno-1>LOF>0)', 'implicit-put-after-get-at-or-beyond-eof'):
@@ -684,7 +691,10 @@ class Rand(Base):
         return ''
 
     def flag(self, name, what):
-        self.flags.setdefault(name, set()).add(what)
+        fl = self.flags.setdefault(name, [])
+        if what in fl:
+            fl.remove(what)
+        fl.append(what)
 
     def note(self, kind, h, extra=None, fired=None):
         if h is None:
@@ -792,8 +802,14 @@ class Rand(Base):
         if self.files.get(name) is None:
             self.files[name] = bytearray()
         if fk:
-            self.flag(name, 'after-%s-fault-in-OPEN' % fk)
+            # OPEN reported success although a fault fired in it: the file must be intact
             self.cx.fs.disarm()
+            self.run.probe('open-succeeded-despite-fault')
+            after = self.cx.host(name)
+            if not others and after != bytes(self.files[name]):
+                return self.bad('open-damaged-file:R:%s-fault' % fk, '%r reported success; host file (%d bytes) '
+                                'is now %r..., %d bytes' % (stmt, len(self.files[name]), (after or b'')[:24],
+                                                            len(after or b'')))
         if others:
             self.flag(name, 'two-numbers-on-file')
             self.run.probe('file-open-under-two-numbers')
@@ -1067,8 +1083,10 @@ def relation(a, b, c, d):
         return 'adjacent' if (b + 1 == c or d + 1 == a) else 'disjoint'
     if c <= a and b <= d:
         return 'new-inside-held'
+    if a < c and d < b:
+        return 'new-strictly-contains-held'
     if a <= c and d <= b:
-        return 'new-contains-held'
+        return 'new-contains-held-sharing-a-bound'
     return 'partial-overlap'
 
 
